@@ -4,6 +4,7 @@
 # through rbql.query_table (Python) and rbql-js query_table: output_column_names = model header; every row as wide as the header.
 import json
 import lib
+from props import hdrjs
 
 THEOREM = 'C07_names / C07_width_select / C07_header_matches_rows / C07_headerless (Props/C07.v)'
 NAMES = ['id', 'name', 'x1', 'Val', '_u']
@@ -163,12 +164,15 @@ def run(ctx):
                 ctx.nontriv((name, c['q'], json.dumps(c['hdrA']), json.dumps(c['hdrB'])))
         ctx.sample({'impl': name, 'query': cases[0]['q'] if name == 'py' else cases[0]['qjs'], 'input_header': cases[0]['hdrA'], 'model': exp[0], 'implementation': got[0]})
     ctx.cross_check_vm(550, args, raw, n=60)
+    hdrjs.run(ctx, cases[:3000])      # HeaderJs.v (character-level model of the JS derivation) against rbql-js on the same select lists
     ctx.rule = ('select lists of 1-4 items over {aN, a[N], a.name, a["name"], NR/NF, *, a.*, b.*, other expressions with nested brackets and commas inside calls/literals, aliases as/AS, '
                 'aggregates} x {header, no header} x {join 30%} x {DISTINCT, DISTINCT COUNT, TOP, GROUP BY, EXCEPT, UPDATE}; Python and JS renderings of the same item list; '
                 'observed: output_column_names and the width of every output row; non-trivial = distinct case with an output header')
 
 
 def replay(ctx, case):
+    if case.get('probe') == 'hdrjs':
+        return hdrjs.replay(ctx, case)
     args, raw, exp = model_header([case])
     got = lib.run_impl_py('c07', [case]) if case.get('impl', 'py') == 'py' else lib.run_impl_js('c07', [case])
     ctx.count()
